@@ -87,11 +87,12 @@ def clip_halfplane(poly, a, b, c):
     """Part of the convex polygon ``poly`` with  a*x + b*y <= c  (exact)."""
     out = []
     n = len(poly)
+    f = [a * p[0] + b * p[1] - c for p in poly]
     for i in range(n):
         p = poly[i]
         q = poly[(i + 1) % n]
-        fp = a * p[0] + b * p[1] - c
-        fq = a * q[0] + b * q[1] - c
+        fp = f[i]
+        fq = f[(i + 1) % n]
         if fp <= 0:
             out.append(p)
         if (fp < 0 and fq > 0) or (fp > 0 and fq < 0):
